@@ -136,7 +136,7 @@ let cause_str = function
 
 let mk_opts flags limit =
   { o_neg = flags.[0] = '1'; o_allow = flags.[1] = '1'; o_ensure = flags.[2] = '1'; o_esc = flags.[3] = '1';
-    o_limit = z_of_int limit }
+    o_limit = z_of_int limit; o_nullsz = None }
 
 let escapes = ["\\u003c"; "\\u003e"; "\\u0026"; "\\u2028"; "\\u2029"]
 
@@ -230,28 +230,36 @@ let judge_apply f =
        let fi = if has f "failidx" then int_of_string (get f "failidx") else -1 in
        let pb = get f "prefixbits" in
        let bit i = String.length errbits > i && errbits.[i] = '1' in
+       let rec take n l = if n <= 0 then [] else match l with [] -> [] | x :: r -> x :: take (n-1) r in
+       (* a prefix whose operations all apply can still fail when the result is marshalled
+          (a document replaced by null): then the prefix runs do not locate the operation *)
+       let prefix_marshal_fails = fi >= 0 && (match api_apply o (bytes_of_string indent) (take (fi+1) ops) (bytes_of_string doc) with RErr (None, _) -> true | _ -> false) in
        if not outnil then add "C08" (F "error with a non-nil document")
-       else if pb <> "" && pb <> errbits then add "C08" (F "operations after the first failing one change the error")
+       else if pb <> "" && pb <> errbits && not prefix_marshal_fails then add "C08" (F "operations after the first failing one change the error")
        else match model_err with
          | None -> add "C08" (if model_ok then F "Apply fails, model succeeds" else S "model-panic")
          | Some e ->
            let is_tf = (e = ETestFailed) and is_cl = (match e with ECopyLimit _ -> true | _ -> false) in
-           let rec take n l = if n <= 0 then [] else match l with [] -> [] | x :: r -> x :: take (n-1) r in
-           (* a prefix whose operations all apply can still fail when the result is marshalled
-              (a document replaced by null): then the prefix runs do not locate the operation *)
-           let prefix_marshal_fails = fi >= 0 && (match api_apply o (bytes_of_string indent) (take (fi+1) ops) (bytes_of_string doc) with RErr (None, _) -> true | _ -> false) in
            if model_idx >= 0 && fi >= 0 && fi <> model_idx && not prefix_marshal_fails then add "C08" (F (Printf.sprintf "first failing operation %d, model %d" fi model_idx))
            else if bit 0 <> is_tf then add "C08" (F (Printf.sprintf "ErrTestFailed=%b, model cause %s" (bit 0) (errclass_str e)))
            else if bit 2 <> is_cl then add "C08" (F (Printf.sprintf "AccumulatedCopySizeError=%b, model cause %s" (bit 2) (errclass_str e)))
            else if e = EMissing && not (bit 1) then add "C08" (F "ErrMissing not reported for a missing member / unreachable parent")
            else add "C08" P
      end;
-     (* C12: the limit error exactly when the model's running total exceeds the limit *)
+     (* C12: the limit error exactly when the running total exceeds the limit.  A copied null may
+        count 0 or 4 bytes: the model is evaluated under both conventions and either is accepted.
+        Judged where the model is a model of the property's domain (well-formed pointers). *)
      if limit > 0 then begin
        let impl_cl = String.length errbits > 2 && errbits.[2] = '1' in
-       let model_cl = (match model_err with Some (ECopyLimit _) -> true | _ -> false) in
-       add "C12" (if impl_cl = model_cl && (impl_ok = model_ok) then P
-                  else F (Printf.sprintf "copy-limit error impl=%b model=%b" impl_cl model_cl))
+       let cl_under z = (match api_apply { o with o_nullsz = Some (z_of_int z) } (bytes_of_string indent) ops (bytes_of_string doc) with
+           | RErr (_, ECopyLimit _) -> true | _ -> false) in
+       let m0 = cl_under 0 and m4 = cl_under 4 in
+       let ptr_ok = List.for_all (fun (op : operation) ->
+           let okp name = (match op_str op (bytes_of_string name) with Ok0 p -> pointer_ok p | _ -> true) in
+           okp "path" && okp "from") ops in
+       add "C12" (if not ptr_ok then S "model-domain"
+                  else if impl_cl = m0 || impl_cl = m4 then P
+                  else F (Printf.sprintf "copy-limit error impl=%b model=%b/%b (null counted 0/4)" impl_cl m0 m4))
      end else add "C12" (if String.length errbits > 2 && errbits.[2] = '1' then F "limit 0 but AccumulatedCopySizeError" else P);
      (* C13 / C14: option on; value-level agreement with the model in the stated domains *)
      let value_agree () =
@@ -625,7 +633,8 @@ let judge_valid f =
              | Some a -> if not (jeq a (den tt) && jeq (den tt) a) then setf c17 (F ("decode then encode changes the value (" ^ name ^ ")"))
              | None -> setf c17 (F (name ^ " does not parse"))
          end in
-       chk "remarshal1"; chk "remarshal0";
+       (* a Go map cannot hold a repeated name twice: decode-then-encode is only claimed without duplicates *)
+       if tnodup tt then begin chk "remarshal1"; chk "remarshal0" end;
        if has f "keys" then begin
          match tt with
          | TObj ms ->
@@ -644,7 +653,7 @@ let judge_valid f =
           if mst = "ok" then setf c16 (F "MergePatch accepts ill-formed input");
           if cst = "ok" then setf c16 (F "CreateMergePatch accepts ill-formed input");
           if String.length ap >= 3 && String.sub ap 0 3 = "ok1" && inp <> "" then setf c16 (F "Apply accepts an ill-formed document")
-          else if String.length ap >= 3 && String.sub ap 0 3 = "ok1" && inp = "" then setf c16 (F "Apply accepts the empty document")
+          else if String.length ap >= 3 && String.sub ap 0 3 = "ok1" && inp = "" then setf c16 (K ("c16-empty-document", "Apply returns the empty document unchanged instead of rejecting it"))
         end else begin
           if eq <> "ok1" then setf c16 (F "Equal(x,x) is not true on well-formed input");
           (match t with
@@ -670,7 +679,7 @@ let judge_cli f =
   let exit_ = int_of_string (get f "exit") in
   let stdout_ = unhex (get f "stdout") in
   let stderr_nonempty = get f "stderr" = "1" in
-  let o = { o_neg = true; o_allow = false; o_ensure = false; o_esc = true; o_limit = Z0 } in
+  let o = { o_neg = true; o_allow = false; o_ensure = false; o_esc = true; o_limit = Z0; o_nullsz = None } in
   (* the fold: every file must be readable and decode (all files are read first), then apply in order *)
   let rec decode_all fs acc = match fs with
     | [] -> Some (List.rev acc)
@@ -721,13 +730,13 @@ let judge_hcall f =
          let o = mk_opts (get f "flags") 0 in
          let r = api_apply o (hexb (get f "indent")) ops (bytes_of_string a) in
          (match String.split_on_char ':' res, r with
-          | ["ok"; "00000"; h], ROut mb ->
+          | ["ok"; "000000"; h], ROut mb ->
             let out = unhex h in
             if out = string_of_bytes mb then P else
               (match den_s out, den_s (string_of_bytes mb) with
                | Some x, Some y when oeqb x y -> P
                | _ -> F "Apply in a history differs from the history-free model")
-          | ["ok"; bits; _], RErr _ when bits <> "00000" -> P
+          | ["ok"; bits; _], RErr _ when String.length bits = 6 && bits.[5] = '1' -> P
           | _, RPanic -> S "model-panic"
           | _ -> F ("Apply in a history: " ^ res)))
     | "merge" | "mm" ->
@@ -767,7 +776,7 @@ let judge_apply4 f =
   let id = get f "id" in
   let flags = get f "flags" in
   let limit = int_of_string (get f "limit") in
-  let g = { g_neg = flags.[0] = '1'; g_limit = z_of_int limit } in
+  let g = { g_neg = flags.[0] = '1'; g_limit = z_of_int limit; g_nullsz = None } in
   let indent = unhex (get f "indent") in
   let patch = unhex (get f "patch") and doc = unhex (get f "doc") in
   let status = get f "status" in
@@ -783,11 +792,18 @@ let judge_apply4 f =
      let impl_ok = status = "ok" in
      let model_ok = (match r with Out4 _ -> true | _ -> false) in
      add "FID" (if impl_ok = model_ok && (not impl_ok || (match r with Out4 b -> (match den_s out, den_s (string_of_bytes b) with Some x, Some y -> jeq x y && jeq y x | _ -> false) | _ -> false)) then P else D "model differs");
-     (* C12 in the legacy package: the package variable *)
+     (* C12 in the legacy package: the package variable; null counted 0 or 4 (see judge_apply) *)
      let impl_cl = String.length errbits > 2 && errbits.[2] = '1' in
-     let model_cl = (match r with Err4 (_, ECopyLimit _) -> true | _ -> false) in
+     let cl_under z = (match api_apply4 { g with g_nullsz = Some (z_of_int z) } (bytes_of_string indent) ops (bytes_of_string doc) with
+         | Err4 (_, ECopyLimit _) -> true | _ -> false) in
+     let ptr_ok = List.for_all (fun (op : operation) ->
+         let okp name = (match op_str op (bytes_of_string name) with Ok0 p -> pointer_ok p | _ -> true) in
+         okp "path" && okp "from") ops in
      add "C12" (if limit = 0 then (if impl_cl then F "limit 0 but AccumulatedCopySizeError" else P)
-                else if impl_cl = model_cl && impl_ok = model_ok then P else F (Printf.sprintf "copy-limit error impl=%b model=%b (legacy package)" impl_cl model_cl));
+                else if not ptr_ok then S "model-domain"
+                else let m0 = cl_under 0 and m4 = cl_under 4 in
+                  if impl_cl = m0 || impl_cl = m4 then P
+                  else F (Printf.sprintf "copy-limit error impl=%b model=%b/%b (legacy package, null counted 0/4)" impl_cl m0 m4));
      (* C18 *)
      let tdoc = parse_s doc in
      let spelled_plainly = not (contains doc "\\" || contains patch "\\" || contains doc "<" || contains doc ">" || contains doc "&"
@@ -797,8 +813,12 @@ let judge_apply4 f =
                      && List.for_all (fun (op : operation) ->
                          let path = (match op_str op (bytes_of_string "path") with Ok0 p -> p | _ -> []) in
                          let from = (match op_str op (bytes_of_string "from") with Ok0 p -> p | _ -> []) in
+                         (* RFC 6902 requires "value" for add, replace and test: an operation without it
+                            is not an operation of the RFC (the legacy DecodePatch validates nothing) *)
+                         let has_value = List.mem_assoc (bytes_of_string "value") op in
                          match op_kind op with
-                         | KAdd -> path <> []
+                         | KAdd -> path <> [] && has_value
+                         | KReplace | KTest -> has_value
                          | KCopy | KMove -> from <> []
                          | KUnknown -> false
                          | _ -> true) ops
